@@ -14,7 +14,7 @@ from common import Ctx, MachineryError, finish, import_naunet, render, require_c
 import creader
 import encoders
 
-C13_CLAUSES = {"OnlyTargetsOverridden", "OverrideValueIsTheKeys", "Inv:OnlyTargetsChanged", "ReindexWhenUnindexed"}
+C13_CLAUSES = {"OnlyTargetsOverridden", "OverrideValueIsTheKeys", "OverrideIsUnguarded", "Inv:OnlyTargetsChanged", "ReindexWhenUnindexed"}
 SPECIES = [(["H", "H"], ["H2"]), (["C", "H"], ["CH"]), (["CH", "H"], ["C", "H2"]), (["O", "H"], ["OH"]), (["OH", "H"], ["O", "H2"]),
            (["C", "O"], ["CO"]), (["H2", "O"], ["OH", "H"]), (["CO", "H"], ["C", "OH"])]
 CODE = {"kida": 3, "umist": "NN", "leeds": 1, "uclchem": "MA", "krome": None, "naunet": 100}
